@@ -47,13 +47,18 @@ def gen_case(rng, ctx):
         cls, ds = gen.dataset(rng, classes="D9 D9 D11", n=rng.choice([3, 3, 4, 5, 6]), mmax=6)
         ds = libx.normalise_raw(ds)
         return {"ds": ds, "scheme": gen.scheme_ratio_band(rng), "dcls": cls, "scls": "S11"}
+    if rng.random() < 0.07 and "D" not in ctx.mode:
+        # nine or ten elements in blocks of 3-4 with cyclic majorities: internal ids >= 8 sit inside a non-trivial component
+        cls, ds = gen.dataset(rng, cls="D11", n=rng.choice([9, 9, 10]), m=rng.choice([3, 3, 5, 6]), mmax=6)
+        ds = libx.normalise_raw(ds)
+        return {"ds": ds, "scheme": gen.scheme(rng, "S1 S1 S11 S3")[1], "dcls": "D11-9plus", "scls": "S1"}
     if rng.random() < 0.2:
         # incomplete rankings under schemes where a pair with an unranked element costs nothing: pairs compared by few
         # rankings only, whose order in the optimum is decided by third elements
         cls, ds = gen.dataset(rng, classes="D3 D3 D4 D7", n=rng.choice([4, 4, 5, 5, 6]), mmax=6)
         ds = libx.normalise_raw(ds)
         return {"ds": ds, "scheme": gen.scheme_unranked_free(rng), "dcls": cls, "scls": "unranked-free"}
-    cls, ds = gen.dataset(rng, classes="D11 D11 D11 D9 D9 D2 D2 D2 D3 D4 D7 D10 D8", nmax=nmax, mmax=6)
+    cls, ds = gen.dataset(rng, classes="D11 D11 D11 D9 D9 D2 D2 D2 D3 D4 D7 D10 D8 D15 D15", nmax=nmax, mmax=6)
     ds = libx.normalise_raw(ds)
     scls, sch = gen.scheme(rng, "S1 S2 S3 S3 S3 S6 S9 S11 S11 S11")
     return {"ds": ds, "scheme": sch, "dcls": cls, "scls": scls}
